@@ -27,7 +27,7 @@ def tree_roles(ctx, dual):
     tree = [b for p, b in prog.bodies.items() if p.startswith(mod + '::') and b.kind != 'Closure' and 'Tree<' in (b.raw.get('impl_self') or '')]
     def calls_of(b):
         return {t['callee'].get('resolved') for _, t in b.calls()}
-    insert = [b for b in tree if b.local_ty(0) == 'usize' and b.arg_count == 2 and b.local_ty(2).startswith('&[') and any(cname(callee_name(t)) == 'Vec::push' for _, t in b.calls())]
+    insert = [b for b in tree if b.local_ty(0) == 'usize' and b.arg_count in (2, 3) and b.local_ty(2).startswith('&[') and any(cname(callee_name(t)) == 'Vec::push' for _, t in b.calls())]
     ctx.require(len(insert) == 1, 'the tree method that inserts a vertex (fn(&mut Tree, &[N]) -> usize pushing onto the vertex list)')
     has_ff = lambda b: any(b.local_ty(i).replace('&mut ', '').strip() == 'FF' for i in range(1, b.arg_count + 1))
     grow = [b for b in tree if has_ff(b) and insert[0].path in calls_of(b)]
@@ -412,7 +412,7 @@ def _planner(ctx, prog, dual):
         tests = set()
         shape_ok = True
         for r, d, rb in cb.return_values():
-            r = strip(r)
+            r = _open_helper(prog, r, pp)          # a predicate kept in a named helper reads as what the helper returns
             found = show(r, maxdepth=6)
             if isinstance(r, tuple) and r[0] == 'un' and r[1] == 'Not':
                 tests.add(strip(r[2]))
@@ -451,7 +451,7 @@ def _planner(ctx, prog, dual):
     found = None
     if cb2 is not None:
         ctx.fn(cb2)
-        rvs = [strip(x[0]) for x in cb2.return_values()]
+        rvs = [_open_helper(prog, x[0], pp) for x in cb2.return_values()]
         if len(rvs) == 1:
             r = rvs[0]
             found = show(r, maxdepth=8)
@@ -552,6 +552,17 @@ def _param_of(t):
     return util.param_index(t)
 
 
+def _open_helper(prog, r, pp):
+    """a closure that only calls a helper of the planner's own module: the value the helper returns, arguments substituted (one level)"""
+    r = strip(r)
+    if isinstance(r, tuple) and r[0] == 'call' and r[1] in prog.bodies and r[1].startswith(pp.path.split('::')[0] + '::'):
+        hb = prog.bodies[r[1]]
+        rv = hb.return_values()
+        if hb.kind != 'Closure' and len(rv) == 1:
+            return strip(util.subst_params(rv[0][0], r[2:]))
+    return r
+
+
 def _assembly_by_interpretation(ctx, prog, dual):
     """R13.3 when the assembly is not written as two walks, a reverse, an append and a conditional reverse: the tree search is
     interpreted with its trees scripted - `extend` / `connect` answer by script, the ancestor walk of the tree named "start"
@@ -572,7 +583,17 @@ def _assembly_by_interpretation(ctx, prog, dual):
     def status(name, payload=None):
         return ('enum', variants.index(name), () if payload is None else (payload,))
     roles = {}
-    for bi, t in dual.calls():
+    # the calls of the search, those made by free helpers it hands the trees to included
+    all_calls = list(dual.calls())
+    seen_helpers = set()
+    for _ in range(2):
+        for bi, t in list(all_calls):
+            pth = t['callee'].get('resolved')
+            hb = prog.bodies.get(pth) if t['callee'].get('local') else None
+            if hb is not None and pth not in seen_helpers and not cname(callee_name(t)).startswith('Tree::') and hb.kind != 'Closure':
+                seen_helpers.add(pth)
+                all_calls += list(hb.calls())
+    for bi, t in all_calls:
         n = cname(callee_name(t))
         for role in ('new', 'add_vertex', 'extend', 'connect', 'ancestors'):
             if role == 'ancestors' and _is(t, 'ancestors'):
